@@ -113,6 +113,13 @@ func c45TryErrIndex(k c45Kind) int {
 
 // c45Attach appends stage k (at pipeline position pos) to the real pipeline.
 func c45Attach(src Source[int], k c45Kind, pos int) Source[int] {
+	return c45AttachR(src, k, pos, nil)
+}
+
+// c45AttachR is c45Attach; resets (when non-nil) collects functions that put the harness-owned
+// state of the user functions (the element counter of a failing TryMap) back to its initial value, so
+// that a second materialisation of the same description sees the same user functions as the first.
+func c45AttachR(src Source[int], k c45Kind, pos int, resets *[]func()) Source[int] {
 	switch k {
 	case c45Map:
 		return src.Via(Map(c45FMap))
@@ -122,6 +129,9 @@ func c45Attach(src Source[int], k c45Kind, pos int) Source[int] {
 		j := c45TryErrIndex(k)
 		n := 0
 		e := &c45StageErr{pos: pos}
+		if resets != nil {
+			*resets = append(*resets, func() { n = 0 })
+		}
 		return src.Via(TryMap(func(x int) (int, error) {
 			i := n
 			n++
@@ -751,6 +761,20 @@ func (f c45Failures) add(sig, caseStr, detail string, repro, size int) {
 	}
 }
 
+// confirmed: does the failure mode sig (with or without the "rerun-" prefix) already have a witness that
+// reproduced? A once-in-three failure of an already confirmed mode is one more instance of that mode
+// (the known Batch defect is schedule dependent in some pipelines); only unconfirmed modes count as
+// nondeterminism.
+func (f c45Failures) confirmed(sig string) bool {
+	base := strings.TrimPrefix(sig, "rerun-")
+	for _, s := range []string{base, "rerun-" + base} {
+		if b := f[s]; b != nil && b.repro >= 2 {
+			return true
+		}
+	}
+	return false
+}
+
 func (f c45Failures) report(e *vsched.Enum) {
 	var sigs []string
 	for s := range f {
@@ -780,6 +804,7 @@ func TestVerifC45(t *testing.T) {
 	p := vsched.Bubble(t, func() {
 		c45ScenarioSignals(bud, &cur)
 		c45ScenarioWiring(bud, &cur)
+		c45ScenarioRemat(bud, &cur)
 		c45ScenarioLinear(bud, &cur)
 	})
 	if p != nil {
@@ -868,7 +893,7 @@ func c45ScenarioLinear(bud *c45Budget, cur **vsched.Enum) {
 							}
 							if same >= 2 {
 								fails.add(sig, caseStr, detail, same, len(prog)*100+len(in))
-							} else {
+							} else if !fails.confirmed(sig) {
 								// seen once in three executions of the same case: depends on the goroutine
 								// schedule, which this engine does not control -> engine policy: not reported
 								// (the start-up race behind such failures is enumerated deterministically by
@@ -1038,7 +1063,7 @@ func c45ScenarioWiring(bud *c45Budget, cur **vsched.Enum) {
 							}
 							if same >= 2 {
 								fails.add(sig, caseStr, detail, same, len(prog)*100+len(in))
-							} else {
+							} else if !fails.confirmed(sig) {
 								e.St.Nondeterminism++
 								r.Note("wiring-preemption: %s failed once in 3 executions (%s); not reported", caseStr, sig)
 							}
@@ -1051,6 +1076,207 @@ func c45ScenarioWiring(bud *c45Budget, cur **vsched.Enum) {
 	})
 	fails.report(e)
 	r.Note("wiring-preemption: failing cases in this shard: %d", failing)
+	e.Done()
+}
+
+// ---------------------------------------------------------------------------------------------
+// Scenario "re-materialisation": Source, Flow, Sink and RunnableGraph are lazy descriptions ("the same
+// graph may be Run() multiple times to produce independent stream instances"), so list semantics
+// must hold for EVERY materialisation of a description, not only the first. For every pipeline the
+// description is built once and then
+//   run 1, run 2: the very same RunnableGraph value is Run twice, one after the other (same Source,
+//                 Flow and Sink values; the shared Collect sink receives run 1's elements followed
+//                 by run 2's, the second segment is judged on its own);
+//   run 3 || 4  : two more graphs built from the SAME Source value (same stage descriptors, fresh
+//                 Collect sinks) are Run at the same time on one actor system (skipped for pipelines
+//                 with a failing TryMap, whose harness-side element counter cannot serve two runs
+//                 at once).
+// Every run is compared with list semantics independently (same oracle as linear-pipelines). The
+// inputs include lists whose first element equals their last one, so state that survives in the
+// description (Deduplicate's last element, Scan's accumulator, Batch's window, ...) changes what
+// the next run sees. Signatures of a failure in a later run, after run 1 conformed, are prefixed
+// with "rerun-".
+
+type c45RematObs struct {
+	runs [4]c45Obs
+	n    int
+}
+
+func c45ObsOf(h StreamHandle, items []int, done bool) c45Obs {
+	o := c45Obs{errPos: -1, done: done, items: items}
+	if done {
+		o.err = h.Err()
+		if o.err != nil {
+			var se *c45StageErr
+			if errors.As(o.err, &se) {
+				o.errPos = se.pos
+			} else {
+				o.errPos = -2
+			}
+		}
+	}
+	return o
+}
+
+func c45RunRemat(prog []c45Kind, mode FusionMode, input []int, concurrent bool) (out c45RematObs) {
+	sys := c45NewSystem()
+	defer c45StopSystem(sys)
+	var resets []func()
+	src := Of(input...)
+	for pos, k := range prog {
+		src = c45AttachR(src, k, pos, &resets)
+	}
+	col, sink := Collect[int]()
+	g := src.To(sink).WithFusion(mode)
+	ctx := context.Background()
+	seen := 0
+	for run := 0; run < 2; run++ {
+		for _, f := range resets {
+			f()
+		}
+		c45UnboundedMailboxes(g.stages) // fresh mailbox instances: a mailbox belongs to one actor
+		h, err := g.Run(ctx, sys)
+		if err != nil {
+			out.runs[run] = c45Obs{runError: err, errPos: -2}
+			out.n = run + 1
+			return out
+		}
+		done := c45Quiesce(h)
+		all := c45Items(col)
+		out.runs[run] = c45ObsOf(h, append([]int(nil), all[seen:]...), done)
+		seen = len(all)
+		out.n = run + 1
+		if !done {
+			return out // the sink of this run may still be alive: later segments would be ambiguous
+		}
+	}
+	if !concurrent {
+		return out
+	}
+	var hs [2]StreamHandle
+	var cols [2]*Collector[int]
+	for i := 0; i < 2; i++ {
+		c, sk := Collect[int]()
+		gi := src.To(sk).WithFusion(mode)
+		c45UnboundedMailboxes(gi.stages)
+		h, err := gi.Run(ctx, sys)
+		if err != nil {
+			out.runs[2+i] = c45Obs{runError: err, errPos: -2}
+			out.n = 3 + i
+			return out
+		}
+		hs[i], cols[i] = h, c
+	}
+	c45Quiesce(hs[0], hs[1])
+	for i := 0; i < 2; i++ {
+		done := false
+		select {
+		case <-hs[i].Done():
+			done = true
+		default:
+		}
+		out.runs[2+i] = c45ObsOf(hs[i], c45Items(cols[i]), done)
+	}
+	out.n = 4
+	return out
+}
+
+// c45JudgeRemat judges every run on its own; the first failing run names the signature.
+func c45JudgeRemat(prog []c45Kind, input []int, set []c45Stream, ob c45RematObs) (sig, detail string) {
+	names := [4]string{"run 1", "run 2 (same RunnableGraph value run again)", "run 3 (same Source value, concurrent with run 4)", "run 4 (same Source value, concurrent with run 3)"}
+	for i := 0; i < ob.n; i++ {
+		s, d := c45Judge(prog, input, set, ob.runs[i])
+		if s == "" {
+			continue
+		}
+		if i > 0 {
+			s = "rerun-" + s
+		}
+		return s, names[i] + ": " + d
+	}
+	return "", ""
+}
+
+func c45ScenarioRemat(bud *c45Budget, cur **vsched.Enum) {
+	r := vsched.Rep()
+	depth := vsched.Pick(2, 3)
+	inputs := [][]int{{}, {1}, {1, 2, 2, 3, 1}, {3, 1, 2, 2, 5}}
+	if r.Thorough() {
+		inputs = append(inputs, []int{2, 2})
+	}
+	modes := []FusionMode{FuseStateless, FuseNone}
+	scenario := "re-materialisation"
+	e := vsched.NewEnum(scenario, map[string]any{"stages": c45KindName[:], "max_depth": depth, "inputs": fmt.Sprint(inputs),
+		"fusion_modes": []string{"FuseStateless", "FuseNone"}, "runs": "1,2: same RunnableGraph value sequentially; 3||4: same Source value concurrently"})
+	*cur = e
+	replay := c45Replay()
+	fails := c45Failures{}
+	var failing int64
+	obsStr := func(ob c45RematObs) string {
+		var p []string
+		for i := 0; i < ob.n; i++ {
+			p = append(p, ob.runs[i].String())
+		}
+		return strings.Join(p, " | ")
+	}
+	c45Programs(depth, func(prog []c45Kind) {
+		concurrent := true
+		for _, k := range prog {
+			if k == c45TryE0 || k == c45TryE2 {
+				concurrent = false
+			}
+		}
+		for _, mode := range modes {
+			for _, in := range inputs {
+				caseStr := fmt.Sprintf("Of%s > %s | %s | materialised repeatedly", c45Str(in), c45ProgStr(prog), c45FusionName[mode])
+				if replay != nil {
+					if replay.skip(scenario, caseStr) {
+						continue
+					}
+				} else if !e.Mine() {
+					continue
+				}
+				if bud.expired.Load() {
+					if e.St.Capped == "" {
+						e.St.Capped = fmt.Sprintf("wall budget reached after %d cases", e.St.Executions)
+					}
+					continue
+				}
+				set, ok := c45Model(prog, in, nil)
+				if !ok {
+					e.St.Invalid++
+					e.St.InvalidReasons["possible-stream set too large"]++
+					continue
+				}
+				bud.begin(caseStr)
+				ob := c45RunRemat(prog, mode, in, concurrent)
+				sig, detail := c45JudgeRemat(prog, in, set, ob)
+				if replay != nil {
+					fmt.Printf("REPLAY %s\n  observed: %s\n  verdict: %s %s\n", caseStr, obsStr(ob), map[bool]string{true: "conforms", false: "VIOLATION " + sig}[sig == ""], detail)
+				}
+				if sig != "" {
+					failing++
+					same := 1
+					if b := fails[sig]; b == nil || b.repro < 3 || len(prog)*100+len(in) < b.size {
+						for i := 0; i < 2; i++ {
+							if s2, _ := c45JudgeRemat(prog, in, set, c45RunRemat(prog, mode, in, concurrent)); s2 == sig {
+								same++
+							}
+						}
+						if same >= 2 {
+							fails.add(sig, caseStr, detail, same, len(prog)*100+len(in))
+						} else if !fails.confirmed(sig) {
+							e.St.Nondeterminism++
+							r.Note("re-materialisation: %s failed once in 3 executions (%s); schedule dependent, not reported", caseStr, sig)
+						}
+					}
+				}
+				e.Case(caseStr, obsStr(ob), ob.n, len(prog) > 0 && len(in) > 0)
+			}
+		}
+	})
+	fails.report(e)
+	r.Note("re-materialisation: failing cases in this shard: %d", failing)
 	e.Done()
 }
 
@@ -1178,7 +1404,7 @@ func c45ScenarioSignals(bud *c45Budget, cur **vsched.Enum) {
 							}
 							if same >= 2 {
 								fails.add(sig, caseStr, detail, same, len(prog)*100+len(in))
-							} else {
+							} else if !fails.confirmed(sig) {
 								e.St.Nondeterminism++
 								r.Note("terminal-signals: %s failed once in 3 executions (%s); schedule dependent, not reported", caseStr, sig)
 							}
